@@ -222,7 +222,11 @@ def _canon_cmp(op, a, b):
         return res if op == "==" else neg_atom(res)
     if op in ("is", "isnot"):
         ca, cb = canon(a), canon(b)
-        if a[0] == "none" or b[0] == "none":
+        if a[0] == "none" and b[0] == "none":
+            res = ("bool", True)
+        elif (a[0] == "none" and b[0] in ("num", "str", "bool", "tuple", "list", "dict")) or (b[0] == "none" and a[0] in ("num", "str", "bool", "tuple", "list", "dict")):
+            res = ("bool", False)
+        elif a[0] == "none" or b[0] == "none":
             res = ("isnone", cb if a[0] == "none" else ca)
         else:
             x, y = sorted([ca, cb], key=repr)
